@@ -75,6 +75,7 @@ def run(ck):
     # ---- R4 termination -------------------------------------------------------------------------------
     r4_termination(ck, [(scope, an), (scope2 - scope, an2)])
     r5_names_the_applier_takes_for_granted(ck)
+    r2b_growth_is_paid_for_by_input(ck, scope)
     # the apply stage slices the lines of a hunk by its context counts (`content[prefix_fuzz .. len - suffix_fuzz]`, fuzz <= context):
     # counts that are not the numbers of leading / trailing context lines can exceed the side's length and the slice panics (C01-R6)
     from . import c01 as _c01
@@ -140,6 +141,35 @@ def r4_termination(ck, scopes):
                            "or an error" % detail[:400], where)
     ck.count("loops in the parser and series-reader closures", n)
     ck.floor(rule, "loops shown to make progress", nproved, 5)
+
+
+def r2b_growth_is_paid_for_by_input(ck, scope, rule="C11-R2b"):
+    """Memory in proportion to the input: in the parser, a loop that is not a walk over a finite iterator (its trip count may come from
+    a number in the input, such as the line counts of a hunk header) grows a vector only on ways round the loop that also consume
+    input - every `push` is paid for by at least one byte.  A way round that pushes without consuming (padding a hunk that ended early
+    with assumed empty lines, up to the announced count) allocates what the header asks for."""
+    from .. import progress, cfg as _cfg, patterns as pt
+    prog = ck.prog
+    n = ng = 0
+    for fid in sorted(scope):
+        fn = prog.fns.get(fid)
+        if fn is None or fn.crate != "libpatch" or "unified::parser" not in fid:
+            continue
+        finite = {il["head"] for il in pt.iterator_loops(fn) if progress.finite_iterator_type(il["iter_ty"]) and
+                  not il["iter_ty"].replace("&mut ", "").startswith(("core::ops::range::Range<", "core::ops::range::RangeInclusive<"))}
+        for head, body in sorted(_cfg.loops(fn).items()):
+            if head in finite:
+                continue
+            n += 1
+            for bb, t in progress.unpaid_growth(fn, head, body):
+                ng += 1
+                ck.violate(rule, "growth in a loop of %s is paid for by input" % fn.id.split("::")[-1],
+                           "%s can be reached on a way round the loop at %s on which the remaining input is not moved on: the vector grows "
+                           "as often as the loop turns, and that is bounded by numbers read from the input, not by its size" % (
+                               (callee_of(t).get("rpath") or "").split("::")[-1], fn.where(fn.blocks[head]["term"])), fn.where(t))
+    ck.floor(rule, "loops of the parser that are not walks over finite iterators", n, 3)
+    if not ng:
+        ck.ok(rule, "growth in the parser's loops is paid for by input", "%d loops examined: every way round that pushes also moves the input on" % n)
 
 
 def r5_names_the_applier_takes_for_granted(ck):
